@@ -40,19 +40,29 @@ func (t *TransactionBase) Success() {
 	t.mutex.Lock()
 	defer t.mutex.Unlock()
 
+	if t.isDone() {
+		return
+	}
 	t.finish()
 }
 
-// You must acquire write lock on t.mutex before calling this function!
+// You must acquire lock on t.mutex before calling this function!
+func (t *TransactionBase) isDone() bool {
+	select {
+	case <-t.done:
+		return true
+	default:
+		return false
+	}
+}
+
+// You must acquire write lock on t.mutex and check that the transaction is not
+// done yet before calling this function!
 func (t *TransactionBase) finish() {
 	if t.finally != nil {
 		t.finally()
 	}
-	select {
-	case <-t.done:
-	default:
-		close(t.done)
-	}
+	close(t.done)
 }
 
 // Transaction.Err() implementation.
@@ -68,6 +78,9 @@ func (t *TransactionBase) Fail(e error) {
 	t.mutex.Lock()
 	defer t.mutex.Unlock()
 
+	if t.isDone() {
+		return
+	}
 	t.err = e
 	t.finish()
 }
